@@ -71,6 +71,15 @@ def hostile_selectors(rng, model: sites.SiteModel, full: bool, n: int) -> typing
             sep = rng.choice([b"../", b"..\\", b"..//", b"./../", b"%2e%2e/"])
             sel = o.selector + b"/" + sep * depth + rng.choice(outside_targets)
             out.append((sel, False, "climb-from-object"))
+        elif k < 0.62:
+            # compatibility look-alikes of '.', '..' and '/': harmless unless something normalises them
+            # after the filter has looked at the selector
+            dd = rng.choice(["\u2025", "\uff0e\uff0e", "\u2024\u2024", ".\uff0e", "\u2025\u2024"]).encode("utf-8")
+            sl = rng.choice([b"/", "\uff0f".encode(), "\u2215".encode(), "\u2044".encode(), b"/"])
+            depth = o.selector.count(b"/") + rng.randrange(0, 3)
+            base = o.selector if rng.random() < 0.6 else b""
+            sel = base + b"/" + (dd + sl) * depth + rng.choice(outside_targets)
+            out.append((sel, False, "unicode-lookalike"))
         elif k < 0.7:
             tail = rng.choice([b"|/MBOX-MESSAGE/1", b"?../../x", b"|../../etc/passwd", b"|/MAILDIR-MESSAGE/../1", b"?/etc/passwd"])
             out.append((o.selector + tail, False, "virtual-argument"))
